@@ -45,8 +45,8 @@ def floors(tier):
 
 def variants():
     v = []
-    v += [("currents_const", k) for k in ("one_extra", "all_same_sign", "missing_return")]
-    v += [("currents_callable", k) for k in ("always", "late", "growing")]
+    v += [("currents_const", k) for k in ("one_extra", "all_same_sign", "missing_return", "one_less", "all_negative", "return_omitted")]
+    v += [("currents_callable", k) for k in ("always", "late", "growing", "always_negative", "late_negative")]
     v += [("unknown_terminal", "callable")]
     v += [("epsilon", k) for k in ("scalar", "spatial", "spatial_one_site", "time_dependent")]
     v += [("options", k) for k in ("dt_init_gt_dt_max", "terminal_psi_abs", "multiplier_low", "multiplier_high", "drag_zero", "drag_high", "step_size", "tolerance",
@@ -137,15 +137,27 @@ def run_case(case):
             cur[0] += m * abs(cur[0])
         elif var == "all_same_sign":
             cur = [abs(c) * m for c in cur]
-        else:  # the return path carries a bit less
+        elif var == "one_less":  # net current negative
+            cur[0] -= m * abs(cur[0])
+        elif var == "all_negative":
+            cur = [-abs(c) * m for c in cur]
+        elif var == "missing_return":  # the return path carries a bit less
             cur[-1] *= 1 - m
         skw["terminal_currents"] = dict(zip(names, cur))
+        if var == "return_omitted":
+            # the dict does not mention the return terminal at all (an omitted terminal carries no current)
+            skw["terminal_currents"] = {n: c * m for n, c in list(zip(names, cur))[:-1]}
         make = solve_with(okw, skw)
     elif cls == "currents_callable":
         def f(t, var=var):
             cur = list(base_cur)
             if var == "always":
                 cur[0] += m * abs(cur[0])
+            elif var == "always_negative":
+                cur[0] -= m * abs(cur[0])
+            elif var == "late_negative":
+                if t > T / 2:
+                    cur[0] -= m * abs(cur[0])
             elif var == "late":
                 if t > T / 2:
                     cur[0] += m * abs(cur[0])
